@@ -4,11 +4,11 @@ import (
 	"bufio"
 	"bytes"
 	"context"
-	"net"
 	stdjson "encoding/json"
 	"errors"
 	"fmt"
 	"io"
+	"net"
 	"os"
 	"path/filepath"
 	"strings"
@@ -467,15 +467,40 @@ func c05Run(c *fw.Ctx, b fw.Batch) {
 					want := lib.ChainOf(lib.Detect(x, lim)).String()
 					hdr := len(lib.Header(x, lim))
 					mk := map[string]func() (io.Reader, func() int){
-						"bytes.Buffer":    func() (io.Reader, func() int) { bb := bytes.NewBuffer(append([]byte(nil), x...)); return bb, func() int { return len(x) - bb.Len() } },
-						"bytes.Reader":    func() (io.Reader, func() int) { br := bytes.NewReader(x); return br, func() int { return len(x) - br.Len() } },
-						"strings.Reader":  func() (io.Reader, func() int) { sr := strings.NewReader(string(x)); return sr, func() int { return len(x) - sr.Len() } },
-						"bufio.Reader":    func() (io.Reader, func() int) { return bufio.NewReaderSize(bytes.NewReader(x), 16), func() int { return -1 } },
-						"io.LimitReader":  func() (io.Reader, func() int) { br := bytes.NewReader(x); return io.LimitReader(br, int64(len(x))), func() int { return len(x) - br.Len() } },
-						"io.MultiReader":  func() (io.Reader, func() int) { h := len(x) / 2; return io.MultiReader(bytes.NewReader(x[:h]), bytes.NewReader(x[h:])), func() int { return -1 } },
-						"iotest.OneByte":  func() (io.Reader, func() int) { br := bytes.NewReader(x); return iotest.OneByteReader(br), func() int { return len(x) - br.Len() } },
-						"iotest.DataErr":  func() (io.Reader, func() int) { return iotest.DataErrReader(bytes.NewReader(x)), func() int { return -1 } }, // reads ahead by design
-						"iotest.HalfRead": func() (io.Reader, func() int) { br := bytes.NewReader(x); return iotest.HalfReader(br), func() int { return len(x) - br.Len() } },
+						"bytes.Buffer": func() (io.Reader, func() int) {
+							bb := bytes.NewBuffer(append([]byte(nil), x...))
+							return bb, func() int { return len(x) - bb.Len() }
+						},
+						"bytes.Reader": func() (io.Reader, func() int) {
+							br := bytes.NewReader(x)
+							return br, func() int { return len(x) - br.Len() }
+						},
+						"strings.Reader": func() (io.Reader, func() int) {
+							sr := strings.NewReader(string(x))
+							return sr, func() int { return len(x) - sr.Len() }
+						},
+						"bufio.Reader": func() (io.Reader, func() int) {
+							return bufio.NewReaderSize(bytes.NewReader(x), 16), func() int { return -1 }
+						},
+						"io.LimitReader": func() (io.Reader, func() int) {
+							br := bytes.NewReader(x)
+							return io.LimitReader(br, int64(len(x))), func() int { return len(x) - br.Len() }
+						},
+						"io.MultiReader": func() (io.Reader, func() int) {
+							h := len(x) / 2
+							return io.MultiReader(bytes.NewReader(x[:h]), bytes.NewReader(x[h:])), func() int { return -1 }
+						},
+						"iotest.OneByte": func() (io.Reader, func() int) {
+							br := bytes.NewReader(x)
+							return iotest.OneByteReader(br), func() int { return len(x) - br.Len() }
+						},
+						"iotest.DataErr": func() (io.Reader, func() int) {
+							return iotest.DataErrReader(bytes.NewReader(x)), func() int { return -1 }
+						}, // reads ahead by design
+						"iotest.HalfRead": func() (io.Reader, func() int) {
+							br := bytes.NewReader(x)
+							return iotest.HalfReader(br), func() int { return len(x) - br.Len() }
+						},
 					}
 					for name, f := range mk {
 						rd, consumed := f()
